@@ -389,7 +389,7 @@ func genRLH(t *rapid.T) rlhCase {
 	c := rlhCase{RL: pick(t, "rl", 0, 1, 2, 5), WL: pick(t, "wl", 0, 1, 2, 5), RD: pick(t, "rd", 0, 1, 2, 5), MountPM: pick(t, "mount", 0, 1, 7, 60)}
 	n := rapid.IntRange(5, 50).Draw(t, "n")
 	for i := 0; i < n; i++ {
-		c.Events = append(c.Events, rlhEvent{Adv: rapid.IntRange(0, 6).Draw(t, "adv"), Op: pick(t, "op", "read", "write", "readdir", "readdirplus", "mnt", "smallread"), IP: rapid.IntRange(0, 1).Draw(t, "ip")})
+		c.Events = append(c.Events, rlhEvent{Adv: rapid.IntRange(0, 6).Draw(t, "adv"), Op: pick(t, "op", "read", "write", "readdir", "readdirplus", "readdir_next", "readdirplus_next", "mnt", "smallread"), IP: rapid.IntRange(0, 1).Draw(t, "ip")})
 	}
 	return c
 }
@@ -425,8 +425,8 @@ func runRLH(tb stat.TB, c rlhCase) {
 			now = now.Add(rlAdvances[ev.Adv])
 			cl := drv.Client{IP: fmt.Sprintf("10.1.1.%d", ev.IP), Port: 700, Cred: nfsx.AuthSys(1, "h", 0, 0, nil)}
 			bucket := ev.Op
-			if ev.Op == "readdirplus" {
-				bucket = "readdir"
+			if ev.Op == "readdirplus" || ev.Op == "readdir_next" || ev.Op == "readdirplus_next" {
+				bucket = "readdir" // (a continuation call - cookie other than 0 - is a READDIR operation like the first)
 			}
 			var refused bool
 			switch ev.Op {
@@ -449,6 +449,12 @@ func runRLH(tb stat.TB, c rlhCase) {
 				refused = r.Status == nfsx.ErrJukebox
 			case "readdirplus":
 				r := s.nfsAs(cl, nfsx.ProcReaddirplus, nfsx.ArgsReaddirplus(root, 0, [8]byte{}, 4096, 8192))
+				refused = r.Status == nfsx.ErrJukebox
+			case "readdir_next":
+				r := s.nfsAs(cl, nfsx.ProcReaddir, nfsx.ArgsReaddir(root, uint64(1+i%3), [8]byte{}, 4096))
+				refused = r.Status == nfsx.ErrJukebox
+			case "readdirplus_next":
+				r := s.nfsAs(cl, nfsx.ProcReaddirplus, nfsx.ArgsReaddirplus(root, uint64(1+i%3), [8]byte{}, 4096, 8192))
 				refused = r.Status == nfsx.ErrJukebox
 			case "mnt":
 				_, st, err := s.e.Mount(cl, "/")
